@@ -437,10 +437,16 @@ def run(ctx, B):
     # 5. an addition that is rejected late (the library's own copy of the crystal cannot be made): the collection must stay as it was (to closure)
     s, t, closed5, md, oc = explore(ctx, exe, [[], ["P1"], ["P2"]], ["I0", "I1", "AN", "AA", "AB", "GA", "GN", "F", "aN", "aA", "gN", "R0"], 30, san_exe=san, label="late-rejection")
     res["late_rejection"] = dict(states=s, transitions=t, closed=closed5, max_depth=md, outcomes=len(oc)); tot_s += s; tot_t += t
+    # 6. names longer than any fixed width that are prefixes of each other / share a long prefix: duplicates are whole-name duplicates, lookups whole-name lookups (to closure)
+    La, Lb = "Long_crystal_name_0123456789_a", "Long_crystal_name_0123456789_b"
+    Lp = La[:20]; Lq = La[:-1]
+    s, t, closed6, md, oc = explore(ctx, exe, [[], ["P1"]], ["I1", "A" + La, "A" + Lb, "A" + Lp, "A" + Lq, "G" + La, "G" + Lb, "G" + Lp, "G" + Lq, "F", "a" + La, "a" + Lb, "g" + La, "g" + Lp], 30,
+                                    san_exe=san, label="long-names")
+    res["long_names"] = dict(states=s, transitions=t, closed=closed6, max_depth=md, outcomes=len(oc)); tot_s += s; tot_t += t
     ctx.cov.update(states=max(tot_s, 1), transitions=max(tot_t, 1), traces_validated_against_impl=tot_t)
     ctx.add(evaluations=tot_t, nontrivial=tot_s)
     ctx.notes["explorations"] = res
-    ctx.cov["exhaustive"] = bool(closed and closed4 and closed5)          # the core alphabet ran to closure; the wider alphabets are depth bounded (see explorations)
+    ctx.cov["exhaustive"] = bool(closed and closed4 and closed5 and closed6)          # the core alphabet ran to closure; the wider alphabets are depth bounded (see explorations)
     ctx.sample(dict(history=["P2", "AA", "R1", "GA", "M", "F"], meaning="array at capacity 2, add A (growth), load file with F and G, copy A, scribble over the copy, free the array"))
     ctx.sample(dict(history=["Q1", "aA", "aB"], meaning="built-in collection filled to 511, add A (fills it), add B (must be refused, collection intact)"))
     ctx.cov["rule"] = ("explicit-state BFS over operation histories of the real crystal collection code: state = observable content through the public list/lookup API "
